@@ -66,6 +66,13 @@ def call_inproc(cmd, mon):
     argv = list(cmd.argv)
     if CMDS[cmd.name][0]:
         argv += ["--num-workers", "0"]
+    if CMDS[cmd.name][1] and "--mp-chunk-size" not in argv:
+        # the serial path with a chunk size SMALLER than the number of items (the default, 1000, never is):
+        # chunking is an implementation detail of the worker pattern and must not change any output
+        k = sum(len(a) for a in argv) % 3
+        if k:
+            argv += ["--mp-chunk-size", str(k)]
+            mon.cls("serial_small_chunks")
     mon.ev(cmd.name)
     so, se = io.StringIO(), io.StringIO()
     rc, exc = None, None
